@@ -332,6 +332,69 @@ def gotoFirstChildFor (lang : Lang) (goalByte : Nat) (goalPoint : TSPoint) (c : 
   | some (idx, st) => (idx, { c with stack := st })
   | none => (-1, c)
 
+/-! ### Runtime side of `cursor_first_child_for_spec` (CursorFcb.lean) -/
+
+/-- The scan of `goto_first_child_for_byte_and_point` as a PLAIN search: like the port, but after an
+unsuccessful descent into a hidden child (`inner` finds nothing) it continues with the next sibling,
+counting the visible children of that hidden child as passed.  `inner` is the search one level down. -/
+def cfcScanIdeal (lang : Lang) (goalByte : Nat) (goalPoint : TSPoint) (inner : List Entry → Nat → Option (Nat × List Entry))
+    (st : List Entry) : Nat → Iter → Nat → Option (Nat × List Entry)
+  | 0, _, _ => none
+  | fuel + 1, it, idx =>
+    match iterNext lang it with
+    | none => none
+    | some (e, vis, it') =>
+      let eEnd := length_add e.pos e.t.data.size
+      let atGoal := eEnd.bytes > goalByte && point_gt eEnd.extent goalPoint
+      if atGoal then
+        if vis then some (idx, e :: st)
+        else if vcc e.t > 0 then
+          match inner (e :: st) idx with
+          | some r => some r
+          | none => cfcScanIdeal lang goalByte goalPoint inner st fuel it' (idx + vcc e.t)
+        else cfcScanIdeal lang goalByte goalPoint inner st fuel it' idx
+      else if vis then cfcScanIdeal lang goalByte goalPoint inner st fuel it' (idx + 1)
+      else cfcScanIdeal lang goalByte goalPoint inner st fuel it' (idx + vcc e.t)
+
+/-- The plain search from a stack: first visible child (hidden ones replaced by theirs) whose end lies
+after the goal in bytes AND in row/column order, with its index among the visible children. -/
+def cfcIdeal (lang : Lang) (goalByte : Nat) (goalPoint : TSPoint) : Nat → List Entry → Nat → Option (Nat × List Entry)
+  | 0, _, _ => none
+  | fuel + 1, st, idx =>
+    match st with
+    | [] => none
+    | top :: rest =>
+      cfcScanIdeal lang goalByte goalPoint (cfcIdeal lang goalByte goalPoint fuel) st (top.t.kids.length + 1)
+        (iterateChildren lang top rest.head?) idx
+
+/-- "No dead end" along the scan: every hidden child the search enters (ends after the goal, has
+visible children) contains a visible child ending after the goal (`inner` succeeds), recursively
+(`innerOK`).  This is the hypothesis finding 9 forces. -/
+def cfcScanNde (lang : Lang) (goalByte : Nat) (goalPoint : TSPoint) (inner : List Entry → Nat → Option (Nat × List Entry))
+    (innerOK : List Entry → Nat → Bool) (st : List Entry) : Nat → Iter → Nat → Bool
+  | 0, _, _ => true
+  | fuel + 1, it, idx =>
+    match iterNext lang it with
+    | none => true
+    | some (e, vis, it') =>
+      let eEnd := length_add e.pos e.t.data.size
+      let atGoal := eEnd.bytes > goalByte && point_gt eEnd.extent goalPoint
+      if atGoal then
+        if vis then true
+        else if vcc e.t > 0 then (inner (e :: st) idx).isSome && innerOK (e :: st) idx
+        else cfcScanNde lang goalByte goalPoint inner innerOK st fuel it' idx
+      else if vis then cfcScanNde lang goalByte goalPoint inner innerOK st fuel it' (idx + 1)
+      else cfcScanNde lang goalByte goalPoint inner innerOK st fuel it' (idx + vcc e.t)
+
+def ndeCur (lang : Lang) (goalByte : Nat) (goalPoint : TSPoint) : Nat → List Entry → Nat → Bool
+  | 0, _, _ => true
+  | fuel + 1, st, idx =>
+    match st with
+    | [] => true
+    | top :: rest =>
+      cfcScanNde lang goalByte goalPoint (cfcIdeal lang goalByte goalPoint fuel) (ndeCur lang goalByte goalPoint fuel) st
+        (top.t.kids.length + 1) (iterateChildren lang top rest.head?) idx
+
 /-- `ts_tree_cursor_current_field_id`. -/
 def currentFieldId (lang : Lang) (c : Cursor) : Nat :=
   let rec go (isTop : Bool) : List Entry → Nat
